@@ -70,6 +70,12 @@ def random_case(rng: random.Random):
     return {"kind": "sel", "vin": {"scores": [rng.randint(1, 6) for _ in range(n)], "count": rng.randint(0, 8)}}
 
 
+def _rerun(case):
+    return {"kind": case["kind"], "vin": case["vin"], "obs": run_real(case)}
+
+
+REPLAY = ("Trace_Vectorise", "Trace_Vectorise.cfg", _rerun, ())
+
 def run(ctx: Ctx):
     quick = ctx.tier == "quick"
     rng = random.Random(ctx.seed * 3571 + 16)
